@@ -253,7 +253,7 @@ Qed.
 (* the exchange as the pre-fix code performed it *)
 Definition old_exchange (c : c27in) : bytes :=
   let '(h, pieces, err) := response_of c in
-  let '(out, close, _) := respond_old (i_q c) (false, false, false) (negb (i_src c =? 0)) (i_status c) h pieces err in
+  let '(out, close, _) := respond_old (i_q c) (false, false, false, false) (negb (i_src c =? 0)) (i_status c) h pieces err in
   out ++ (if close then [] else probe_bytes).
 Definition old_exchange_of (i : val) : bytes :=
   match dec_C27 i with Some c => old_exchange c | None => [] end.
@@ -516,7 +516,7 @@ Proof. unfold del_key. intro H. apply filter_In in H. tauto. Qed.
 (* ---------- what writeHeader leaves of the supplied header ---------- *)
 Section Decision.
 Variables (q : rq) (status : Z) (h : fields) (clen : Z) (hdone : bool) (p : bytes).
-Let d := write_header sniff_text fixed_date true body_allowed_status q (false, false, false) status h clen false hdone p.
+Let d := write_header sniff_text fixed_date true body_allowed_status q (false, false, false, false) status h clen false hdone p.
 
 Ltac wh_unfold := unfold d, write_header, wh_frame; cbn [d_fields d_extra d_chunking d_close d_clen fst snd].
 Ltac wh_split := repeat match goal with |- context [if ?b then _ else _] => destruct b end; cbn [fst snd].
@@ -543,7 +543,7 @@ End Decision.
 (* ---------- the framing scenarios of writeHeader for a response that carries a body ---------- *)
 Section Scenarios.
 Variables (q : rq) (status : Z) (h : fields) (clen : Z) (hdone : bool) (p : bytes).
-Let d := write_header sniff_text fixed_date true body_allowed_status q (false, false, false) status h clen false hdone p.
+Let d := write_header sniff_text fixed_date true body_allowed_status q (false, false, false, false) status h clen false hdone p.
 Hypothesis Hhead : q_head q = false.
 Hypothesis Hallowed : body_allowed_status status = true.
 Hypothesis Hte : get_all s_te h = [].
@@ -627,7 +627,7 @@ Proof. unfold blen. lia. Qed.
 
 Section Glue.
 Variables (q : rq) (status : Z) (h : fields) (clen : Z) (hdone : bool) (p : bytes).
-Let d := write_header sniff_text fixed_date true body_allowed_status q (false, false, false) status h clen false hdone p.
+Let d := write_header sniff_text fixed_date true body_allowed_status q (false, false, false, false) status h clen false hdone p.
 Ltac wh_unfold := unfold d, write_header, wh_frame; cbn [d_fields d_extra d_chunking d_close d_clen d_head fst snd].
 Ltac wh_split := cbn [is_empty negb andb orb fst snd]; repeat (match goal with |- context [if ?b then _ else _] => destruct b end; cbn [is_empty negb andb orb fst snd]).
 
@@ -754,7 +754,7 @@ End Body.
 (* ---------- one response, end to end ---------- *)
 Definition expects_b (q : rq) (status : Z) : bool := negb (q_head q) && body_allowed_status status.
 Definition wh (q : rq) (status : Z) (h : fields) (clen : Z) (hdone : bool) (p : bytes) : hdec :=
-  write_header sniff_text fixed_date true body_allowed_status q (false, false, false) status h clen false hdone p.
+  write_header sniff_text fixed_date true body_allowed_status q (false, false, false, false) status h clen false hdone p.
 
 Lemma wf_te h : wf_hdrs h = true -> get_all s_te h = [].
 Proof.
@@ -776,7 +776,7 @@ Theorem parses_as_one q ff status h pieces err tail out close dr :
   blen (concat pieces) < 2 ^ 62 ->
   (expects_b q status = true ->
    err = false /\ forall v, get_all s_cl h = [v] -> parse_dec v = Some (blen (concat pieces))) ->
-  respond q (false, false, false) ff status h pieces err = (out, close, dr) ->
+  respond q (false, false, false, false) ff status h pieces err = (out, close, dr) ->
   (close = true -> tail = []) ->
   exists fs fr,
     ref_parse (q_head q) (out ++ tail) =
@@ -917,7 +917,7 @@ Lemma parses_as_one_nonvacuous :
   wf_hdrs ex_h1 = true /\ expects_b ex_q 200 = true /\ get_all s_cl ex_h1 = [[53]] /\
   parse_dec [53] = Some (blen (concat [ex_body5])) /\
   wf_hdrs ex_h2 = true /\ get_all s_cl ex_h2 = [] /\
-  snd (fst (respond ex_q (false, false, false) false 200 ex_h2 [repeat 97 600] false)) = false.
+  snd (fst (respond ex_q (false, false, false, false) false 200 ex_h2 [repeat 97 600] false)) = false.
 Proof. repeat split; vm_compute; reflexivity. Qed.
 
 
@@ -1037,7 +1037,7 @@ Proof.
   intros Hdec Hsrc Hm Hst Hwf Hlen Hirr.
   unfold prop_C27, run_C27. rewrite Hdec. unfold exchange, response_of.
   assert (Es : negb (i_src c =? 1) = true) by lia. rewrite Es.
-  destruct (respond (i_q c) (false, false, false) (negb (i_src c =? 0)) (i_status c) (i_hdrs c) (i_pieces c) (i_err c))
+  destruct (respond (i_q c) (false, false, false, false) (negb (i_src c =? 0)) (i_status c) (i_hdrs c) (i_pieces c) (i_err c))
     as [[out close] dr] eqn:Er.
   set (tail := if close then [] else probe_bytes).
   assert (Hreg : expects_b (i_q c) (i_status c) = true ->
